@@ -421,6 +421,35 @@ class FIELD_SETTER_DEPENDANTS:
 
 FIELD_SETTER_DEPENDANTS.key = (SC, "Schema.__field_setter__#dependants")
 
+
+def _prop_field(pol):
+    return PF(on_error=Str(pol), type=Cls(name="ftype"), required=BOOL, no_input=BOOL, no_output=BOOL, mode=NONE, default=OBJ,
+              default_factory=NONE, final=BOOL, discriminator_map=NONE, property=Obj(not_none=True, name="property"), dependants=NONE,
+              field=Rec("Field", immutable=BOOL))
+
+
+def _prop_setup(ex, frame):
+    _setter_setup(ex, frame)
+    ex.assume(sym.truthy_f(frame.env["field"].fields["property"].t))      # a property object is truthy
+
+
+@contract(SC, "Schema.__field_setter__", props=["C07"], which="property")
+class FIELD_SETTER_PROPERTY:
+    """assignment to an @property field that has no setter function of its own: the assigned value is parsed (an
+    offender raises, nothing changes) and the property is then RE-COMPUTED through __coerce_property__ -- the raw or parsed
+    assigned value is never written into either view by the setter itself."""
+    cases = {pol: dict(self=_schema(), value=OBJ, field=_prop_field(pol), setter=NONE) for pol in ("throw", "preserve")}
+    setup = staticmethod(_prop_setup)
+    requires = _PRE
+    returns = {"recomputed_after_the_assignment": "coerced_on_current_state(self, field)"}
+    raises = {"Exception": {"state_unchanged": _UNCHANGED}}
+    only_raises = ["Exception"]
+    modifies = ["self.__data__", "self.__dict__"]
+    assumes = ["no fset function (a user setter may do anything to the instance before the recomputation)"]
+
+
+FIELD_SETTER_PROPERTY.key = (SC, "Schema.__field_setter__#property")
+
 # ------------------------------------------------------------------------------------ __setitem__ for an unknown key
 
 def _additional_setup(ex, frame):
@@ -723,9 +752,109 @@ class COERCE_PROPERTY:
                "tmp_untouched": "len(context.tmp_errors) == old(len(context.tmp_errors))",
                "ghost_ran_on_the_state_it_leaves": "coerced_on_current_state(self, field)"}
     definitional = ["ghost_ran_on_the_state_it_leaves"]
+    raises = {"Exception": {"raises_before_it_stores": _UNCHANGED}}
     only_raises = ["Exception"]
     modifies = ["context.errors", "self.__data__", "self.__dict__"]
-    trusted = "interface only: the body calls the user's property getter and parse_output_value (contracted separately)"
+    trusted = ("interface: the body calls the user's property getter and parse_output_value.  errors_only_grow, tmp_untouched and "
+               "raises_before_it_stores are PROVED on the body for plain configurations (contract `Schema.__coerce_property__#body`: bool "
+               "no_output, an output type, no output field, no dependencies) and assumed for the others")
+
+
+# ---- the body of __coerce_property__ for plain configurations (the interface above is what callers use)
+
+def _install_prop(world):
+    world.models["PropertyObj"] = RecordModel(world, SC, "<property object>", dict(fget=OBJ_NN, fset=OBJ))
+
+
+_C.INSTALLERS.append(_install_prop)
+
+
+@specfn("getter_value")
+def _getter_value(ex, fr, field, inst):
+    """what the user's getter returns for this instance (call model `pure`: call1(fget, instance))"""
+    call1 = z3.Function("call1", V, V, V)
+    return VObj(call1(field.fields["property"].fields["fget"].t, ex.box(inst)))
+
+
+def _cp_cases():
+    out = {}
+    for pol in ("throw", "exclude", "preserve"):
+        out[pol] = dict(
+            self=_schema(),
+            field=PF(no_output=BOOL, mode=NONE, output_type=Cls(name="otype"), output_field=NONE, dependencies=NONE,
+                     property=Rec("PropertyObj")),
+            context=Rec("RuntimeContext", options=Rec("Options", mode=NONE, invalid_values=Str(pol), collect_errors=FALSE, max_errors=NONE)))
+    return out
+
+
+_G = "getter_value(field, self)"
+_ACC_O = "accepts(field.output_type, %s, context)" % _G
+_CV_O = "converted(field.output_type, %s, context)" % _G
+
+
+def _cp_post(pol):
+    stored = {"throw": _CV_O, "exclude": _CV_O, "preserve": "(%s if %s else %s)" % (_CV_O, _ACC_O, _G)}[pol]
+    d = {
+        "other_keys_untouched": "others_untouched(self.__data__, old(snap(self.__data__)), field.name)",
+        "other_attributes_untouched": "others_untouched(self.__dict__, old(snap(self.__dict__)), field.attname)",
+        # `No public operation can place unparsed data into the instance`: what sits under the property's name afterwards is
+        # the entry that was there, or the PARSED getter result
+        "entry_is_the_old_one_or_the_parsed_getter_result":
+            "implies(has_key(self.__data__, field.name), entry_kept(self.__data__, old(snap(self.__data__)), field.name) "
+            "or value_at(self.__data__, field.name, %s))" % stored,
+        "a_computed_value_is_published_or_hidden":
+            "implies(result is not None, (not has_key(self.__data__, field.name) and not has_key(self.__dict__, field.attname)) "
+            "if field.no_output else value_at(self.__data__, field.name, result))",
+        "errors_only_grow": "len(context.errors) >= old(len(context.errors))",
+        "tmp_untouched": "len(context.tmp_errors) == old(len(context.tmp_errors))",
+    }
+    if pol != "preserve":
+        d["only_an_accepted_result_is_published"] = "implies(result is not None, %s and result is %s)" % (_ACC_O, _CV_O)
+    return d
+
+
+@specfn("entry_kept")
+def _entry_kept(ex, fr, m, old_m, key):
+    """the entry under `key` is the one the old mapping had"""
+    kb = ex.box(key)
+    return VBool(ex.exists(0, m.n, lambda j: ex.exists(0, old_m.n, lambda i: z3.And(
+        z3.Select(m.keys, j) == kb, z3.Select(old_m.keys, i) == kb, z3.Select(m.vals, j) == z3.Select(old_m.vals, i)))))
+
+
+def _cp_setup(ex, frame):
+    f = frame.env["field"]
+    _string_keys(ex, frame, [f.fields["name"], f.fields["attname"]])
+    ex.assume(sym.truthy_f(f.fields["output_type"].t))
+    fget = f.fields["property"].fields["fget"]
+    ex.assume(sym.callable_f(fget.t))
+    # a getter result is a real value, and no converter returns the sentinel
+    u = ex.world.opaque_const("unprovided")
+    call1 = z3.Function("call1", V, V, V)
+    g = call1(fget.t, ex.box(frame.env["self"]))
+    o = frame.env["context"].fields["options"]
+    ex.assume(g != u)
+    ex.assume(converted_t(f.fields["output_type"].t, g, o.fields["no_explicit_cast"].t, o.fields["no_data_loss"].t) != u)
+
+
+@contract(SC, "Schema.__coerce_property__", props=["C07", "C10"], which="body")
+class COERCE_PROPERTY_BODY:
+    """the BODY of __coerce_property__ for a plain @property field (bool no_output, no mode strings, an output type,
+    no separate output field, no dependencies): the user's getter is an unknown callable (call model `pure`: any result
+    or any exception); what is published under the property's name is the PARSED getter result (policy `preserve`:
+    or the raw one for an offender), nothing else in either view changes, a getter that raises publishes nothing."""
+    cases = _cp_cases()
+    calls = "pure"
+    setup = staticmethod(_cp_setup)
+    requires = _PRE
+    returns_by_case = {pol: _cp_post(pol) for pol in ("throw", "exclude", "preserve")}
+    raises = {"Exception": {"state_unchanged": _UNCHANGED}}
+    only_raises = ["ParseError"]
+    modifies = ["context.errors", "self.__data__", "self.__dict__"]
+    assumes = ["the getter is a deterministic partial function of the instance (call model `pure`); it does not itself mutate the instance",
+               "warnings.warn does not raise (dropped call)"]
+
+
+COERCE_PROPERTY_BODY.key = (SC, "Schema.__coerce_property__#body")
 
 
 @contract(SC, "Schema.__post_init__", props=["C10", "C07"])
